@@ -200,8 +200,13 @@ H_stop_ret(o, e) ==
 H_op_issue(o, e) ==
   LET x == o.I[e.i]
       op == [op |-> e.op, i |-> e.i, kind |-> e.kind, key |-> e.key, exp |-> e.exp, id |-> e.id,
-             tok |-> e.tok, prio |-> e.prio, cls |-> e.cls, at |-> e.t, src |-> e.src, to |-> FALSE, ins |-> x.stopping > 0]
-      v1 == IF x.stopped THEN {V("C09", "store_operation_after_stop_returned", e.i, e)} ELSE {}
+             tok |-> e.tok, prio |-> e.prio, cls |-> e.cls, at |-> e.t, src |-> e.src, to |-> FALSE, ins |-> x.stopping > 0,
+             \* own: the read was answered from a record showing this instance's current term (set when it is applied);
+             \* vfy: a read of a reconnect verification (its Get, or the validateToken read issued at the instant that Get returned)
+             own |-> FALSE, vfy |-> e.kind = "get" /\ (e.src = "verify" \/ (e.src = "validate" /\ e.t = x.verifyAt))]
+      \* (the owner check and the Delete of a StopWithContext{DeleteKey} call that is still in progress belong to that call,
+      \*  also when another, overlapping stop call of the same instance has returned in the meantime)
+      v1 == IF x.stopped /\ ~(x.stopping > 0 /\ e.src = "stop") THEN {V("C09", "store_operation_after_stop_returned", e.i, e)} ELSE {}
       v2 == IF x.burst + 1 > 40 THEN {V("C13", "unbounded_operations_in_one_instant", e.i, e)} ELSE {}
       v3 == IF e.key # x.cfg.group THEN {V("C01", "operation_on_foreign_key", e.i, e)} ELSE {}
       v4 == IF e.depth > 2 THEN {V("C13", "unbounded_recursion_of_acquisition", e.i, e)} ELSE {}
@@ -256,7 +261,9 @@ H_op_apply(o, e) ==
       \* a read issued inside a stop call that shows the stopping instance as owner (the owner check of DeleteKey)
       ownRead == e.kind = "get" /\ e.ok /\ x.st.open /\ e.cls = "payload" /\ e.id = e.i /\ e.tok = x.ttok
                  /\ \E q \in o0.pend : q.op = e.op /\ q.ins
-      o1 == IF ownRead THEN [o0 EXCEPT !.I[e.i].st.checked = TRUE, !.I[e.i].st.checkedOp = e.op] ELSE o0 IN
+      o1a == IF ownRead THEN [o0 EXCEPT !.I[e.i].st.checked = TRUE, !.I[e.i].st.checkedOp = e.op] ELSE o0
+      showsOwn == e.kind = "get" /\ e.ok /\ e.cls = "payload" /\ e.id = e.i /\ e.tok = x.ttok
+      o1 == [o1a EXCEPT !.pend = {IF q.op = e.op THEN [q EXCEPT !.own = showsOwn] ELSE q : q \in @}] IN
   IF e.ok /\ e.kind \in {"create", "update", "delete"} THEN H_mutation(o1, e)
   ELSE R(o1, {})
 
@@ -279,15 +286,19 @@ H_op_resp(o, e) ==
             ELSE IF isRefresh /\ e.ok /\ ~timely THEN [x EXCEPT !.revOK = FALSE]
             ELSE IF isRefresh /\ ~e.ok /\ timely /\ x.claim THEN [x EXCEPT !.failRun = @ + 1]
             ELSE x
-      y2 == IF e.kind = "watch" /\ e.ok THEN [y1 EXCEPT !.ready = ~x.halted, !.readyAt = e.t] ELSE y1
+      \* ready: the instance has been through the set-up of its watch loop. A Watch call that fails is a transient store
+      \* failure like any other (C06: "after transient store or watch failures cease the same bound applies again"): the
+      \* instance stays a candidate, the bound is re-armed by the fault
+      y2 == IF e.kind = "watch" THEN [y1 EXCEPT !.ready = ~x.halted, !.readyAt = e.t] ELSE y1
       \* reconnect verification reads
       \* reads of a reconnect verification: the Get of verifyLeadershipAfterReconnect and the validateToken read it issues
       \* at the instant that Get returns (several verifications may overlap)
       isV1 == known /\ e.kind = "get" /\ q.src = "verify"
-      isV2 == known /\ e.kind = "get" /\ q.src = "validate" /\ q.at = x.verifyAt
-      vown == e.ok /\ Own(o, e.i)
+      isV2 == known /\ e.kind = "get" /\ q.src = "validate" /\ q.vfy
+      vown == e.ok /\ q.own        \* what the read returned (not what the store holds when the answer arrives)
       y3 == IF isV1 THEN [y2 EXCEPT !.verifyAt = e.t, !.verifyOwn = vown, !.verify = IF vown \/ ~x.claim THEN @ ELSE "failed"]
-            ELSE IF isV2 THEN [y2 EXCEPT !.verifyOwn = vown, !.verify = IF vown \/ ~x.claim THEN @ ELSE "failed"]
+            \* the validateToken read decides the verification: showing ownership it also overrides the connection-test read before it
+            ELSE IF isV2 THEN [y2 EXCEPT !.verifyOwn = vown, !.verify = IF vown THEN "none" ELSE IF ~x.claim THEN @ ELSE "failed"]
             ELSE y2
       y4 == [y3 EXCEPT !.inflight = @ \ {e.op}, !.hung = @ \ {e.op},
                        !.st.checkRespAt = IF x.st.checked /\ x.st.checkedOp = e.op THEN e.t ELSE @]
@@ -478,13 +489,15 @@ H_snap(o, e) ==
                   (IF y.lostOutside THEN {V("C13", "tampered_leader_not_demoted_at_completion_of_next_heartbeat:" \o y.lostCause, i, e)} ELSE {}) ELSE {}
       v03b == IF quiet /\ y.claim /\ y.failRun >= ToleratedFailures
               THEN {V("C03", "not_demoted_after_third_failed_refresh", i, e)} ELSE {}
-      vver == IF quiet /\ y.verify = "failed" /\ y.claim
+      \* (the verification is over: none of its reads is still outstanding)
+      vpend == \E q \in o1.pend : q.i = i /\ q.vfy
+      vver == IF quiet /\ y.verify = "failed" /\ y.claim /\ ~vpend
               THEN {V("C11", "kept_leadership_although_verification_read_did_not_show_ownership", i, e)} ELSE {}
       z == [y EXCEPT !.hadLid = @ \/ e.slid # "",
                      !.hdue = IF quiet THEN FALSE ELSE @,
                      !.lostAt = IF v03 # {} THEN -1 ELSE @,
                      !.failRun = IF v03b # {} THEN 0 ELSE @,
-                     !.verify = IF quiet /\ @ = "failed" THEN "none" ELSE @]
+                     !.verify = IF quiet /\ @ = "failed" /\ ~vpend THEN "none" ELSE @]
   IN R(SetI(o1, i, z),
        r0.v \cup v18a \cup v18b \cup v18c \cup v18d \cup v02 \cup v02b \cup v07 \cup v05 \cup v08 \cup v12
             \cup v19 \cup v03 \cup v03b \cup vver \cup v09)
